@@ -10,6 +10,7 @@ from .. import lingen as L
 
 PROP = "C06"
 PROP_V = "theories/props/C06.v"
+MODEL_AREAS = ('front', 'tc', 'lin')
 
 
 def ok(o):
